@@ -441,15 +441,14 @@ func runC15(res *Result, tier string, seed int64, replay string) {
 		}
 	}
 	fullPathStress(res, NewRng(seed, "c15/stress"), rounds)
-	races := raceReports()
-	for pair, n := range races {
+	for _, rr := range raceReports() {
 		res.Count("race-reports")
-		if raceOnGlobalsOnly(pair) {
+		if rr.globals {
 			// the process-wide attribute store: C07's recorded finding, not part of the cache machinery
-			res.Note("race on globals.instance (C07-F1) ×%d: %s", n, pair)
+			res.Note("race through globals.instance (C07-F1) ×%d: %s", rr.n, rr.pair)
 			continue
 		}
-		res.Violate(Violation{Sig: "data-race|" + pair, Kind: "schedule", What: fmt.Sprintf("race detector: %s (×%d)", pair, n)})
+		res.Violate(Violation{Sig: "data-race|" + rr.pair, Kind: "schedule", What: fmt.Sprintf("race detector: %s (×%d)", rr.pair, rr.n)})
 	}
 }
 
